@@ -89,6 +89,15 @@ def run(rep, tier, seed, proof_ok):
         c15_programs.run(rep, tier, seed, proof_ok, rng)
     except ImportError:
         rep.extra["program_part"] = "dry-run purity part not built yet"
+    import c15_threads
+    rep.rule += ("; thread dimension: generated pipelines whose kept steps (dds.keep / @data_function, some loading a path kept earlier in the "
+                 "same evaluation) are reached from other threads than the caller of dds.eval (ThreadPoolExecutor.submit / map, in parallel "
+                 "or one by one, threading.Thread, a pool that outlives the evaluation, thread-in-thread, Timer; dds.eval itself called from "
+                 "the main or from another thread) x stage prefixes in random spellings x store kinds; restricted runs on an empty and on a "
+                 "populated store (after a variable was reassigned) vs plain execution, vs the control history without the restricted runs "
+                 "and vs the store below dds (sync_paths / store_blob calls of every thread, committed paths, blob keys); non-trivial = a "
+                 "kept step really ran on another thread")
+    rep.extra["input_distribution"]["threads"] = c15_threads.run(rep, tier, seed, proof_ok, rng)
 
 
 def replay(path):
@@ -100,5 +109,8 @@ def replay(path):
         bad = istr != r.get("model")
         print("REPRODUCED" if bad else "not reproduced")
         return 1 if bad else 0
+    if "tplan" in r:
+        import c15_threads
+        return c15_threads.replay(r)
     import c15_programs
     return c15_programs.replay(r)
